@@ -229,6 +229,15 @@ inline void m_plans(const Edge& e, const Parsed& P, unsigned props) {
 			if (!replaced && !(P.r[0].subj.o == last.o && P.r[0].subj.d == last.d && (P.r[0].subj.set != 0) == (last.set != 0) && P.r[0].subj.tag == last.tag)) flag(C08, "fired-request-not-evaluated", e, "guards evaluate %d>%d/p%d, the task fired last was %d>%d/p%d", P.r[0].subj.o, P.r[0].subj.d, P.r[0].subj.tag, last.o, last.d, last.tag);
 		}
 	}
+	// ---- C11: the history names the task's origin as the source of a request the plan issued
+#if VX_HIST
+	if ((props & (1u << C11)) && cycle && P.processing && !P.structErr && P.nr > 0 && nF) {
+		bool replaced = false; for (int i = 0; i < e.nev; ++i) if (e.tr[i].kind == EV_CHANGE && (e.tr[i].meth == M_PLAN_OK || e.tr[i].meth == M_PLAN_FAIL)) replaced = true;
+		const TxS& last = F[nF - 1]; TxS W = TX_NONE;
+		if (!replaced && winner(P, W) && W == P.r[0].subj && W.d == last.d && !tx_empty(e.post.prev) && e.post.prev.d == last.d && e.post.prev.o != last.o)
+			flag(C11, "history-origin", e, "previousTransition() = %d>%d, the applied request was issued by the plan for task %d>%d", e.post.prev.o == NONE8 ? -1 : e.post.prev.o, e.post.prev.d, last.o, last.d);
+	}
+#endif
 	// ---- C09
 	if (c09) {
 		if (cycle && expectOutcome && !outcomeSeen) flag(C09, "warranted-outcome-missing", e, "%s was warranted and not delivered", METH_NAME[expectOutcome]);
@@ -480,7 +489,7 @@ inline void m18(const Edge& e, const Parsed&) {
 
 inline void extra_monitors(const Edge& e, const Parsed& P, unsigned props) {
 #if VX_PLANS
-	if (props & ((1u << C08) | (1u << C09))) m_plans(e, P, props);
+	if (props & ((1u << C08) | (1u << C09) | (VX_HIST ? (1u << C11) : 0u))) m_plans(e, P, props);
 	if (props & (1u << C10)) m10(e, P);
 #endif
 	if (props & (1u << C12)) m12(e, P);
